@@ -29,7 +29,8 @@ from vlib.front import unparse, dotted, const_value
 
 A = 'phylib/io/array.py'
 TR = 'phylib/io/traces.py'
-FLOOR = 6
+FLOOR = 4          # decided obligations below this = the analysis lost its footing (exit 2); clean tree: 10
+RULES = ('C16.P1', 'C16.P2', 'C16.S1', 'C16.S2', 'C16.S3')          # every obligation group must report (holds / violated / undecided): a group that vanishes silently is an analysis error
 EXPLANATION = ('sym engine: the generators chunk_bounds / excerpts are walked path by path (loop unrolled 0..2 times, every outcome '
                'of every comparison), each yielded tuple is a symbolic term over the parameters; chain equalities between consecutive '
                'yields and bounds are decided by equality / sign of linear normal forms (max/min/floor-division as interpreted atoms)')
@@ -88,6 +89,34 @@ def s1_chunk_bounds(ctx):
             last_form = equal(e, N)
             if sg == '+' or (sg == '>=0' and I.can_exceed_zero(d)):
                 probs.setdefault('chunk %d has length %s, which exceeds chunk_size for some overlap' % (j, e - s), 1)
+            elif sg is None and last_form:
+                # the chunk after the loop: its length is bounded only through the loop's EXIT condition - the comparisons decided on this path are the assumptions
+                extra = []
+                for key, rel_ in st.facts.items():
+                    if isinstance(key, tuple) and key and key[0] == 'rel' and rel_ in ('<', '=', '>'):
+                        try:
+                            dl = nf(key[2]) - nf(key[1])          # b - a
+                        except Exception:
+                            continue
+                        if rel_ == '<':
+                            extra.append(dl - Lin.const(1))
+                        elif rel_ == '>':
+                            extra.append(-dl - Lin.const(1))
+                        else:
+                            extra.extend([dl, -dl])
+                saved = list(I.nonneg)
+                I.nonneg = saved + extra
+                try:
+                    ok_len = I.ge0(-d)
+                finally:
+                    I.nonneg = saved
+                if ok_len:
+                    pass
+                elif I.interpreted(d):
+                    probs.setdefault('the last chunk has length %s, which is not bounded by chunk_size under the exit condition of the loop: for some (length, chunk size, overlap) it '
+                                     'holds more than chunk_size samples' % (e - s), 1)
+                else:
+                    und.setdefault('length of the last chunk (%s) not comparable with chunk_size' % (e - s), 1)
             elif sg is None and not last_form:
                 und.setdefault('length of chunk %d (%s) not comparable with chunk_size' % (j, e - s), 1)
             # the chunk starts inside the data (a negative start would wrap around when the data is sliced)
